@@ -309,8 +309,11 @@ func (l *lexer) backup() {
 
 // peek returns but does not consume the next rune in the input.
 func (l *lexer) peek() rune {
+	// keep the width of the last consumed rune so that a later backup() un-reads it
+	w := l.width
 	r := l.next()
 	l.backup()
+	l.width = w
 	return r
 }
 
